@@ -35,7 +35,12 @@ def gen_and_replay(v, wd, ex, bind, pid, tier, rnd, scn, views, nrand, walk, dep
     return res, st
 
 
-CONFIG_VARIANTS = ("ndebug", "uchar")
+CONFIG_VARIANTS = ("ndebug", "uchar", "allocfail", "smallstack", "autoinit", "libcfirst")
+VARIANTS["smallstack"] = VARIANTS["O2"]          # same build; the executor runs its command loop on a 64 KiB thread stack (env VERIF_SMALL_STACK)
+
+def config_executor(name, exe, wd):
+    return Executor(exe, wd, env={"VERIF_SMALL_STACK": "1"} if name == "smallstack" else None)
+
 
 def config_variant_names(v=None):
     """the fixed configurations plus one per compiler-controlled symbol that the tree's own preprocessor conditionals test"""
@@ -56,8 +61,15 @@ def replay_configs(v, wd, bind, vectors, pid, tier, rnd, publen=False, limit=Non
         exes = list(pool.map(lambda x: build_exec(wd, x), names))
     n = 0
     for name, exe in zip(names, exes):
-        st = pdu.replay(v, Executor(exe, wd), bind, vectors, pid, tier, rnd, publen=publen, places=[("E", 0)], tag="[build %s] " % name, readback=readback)
+        st = pdu.replay(v, config_executor(name, exe, wd), bind, vectors, pid, tier, rnd, publen=publen, places=[("E", 0)], tag="[build %s] " % name, readback=readback)
         n += st["executed"]
+    # ... and through another data model: ILP32 (int, long, size_t and pointers of 32 bits), a freestanding -m32 build
+    try:
+        ex32 = Executor(build_exec32(wd), wd)
+        st = pdu.replay(v, ex32, bind, vectors, pid, tier, rnd, publen=publen, places=[("E", 0)], tag="[data model ILP32] ", readback=False)
+        n += st["executed"]; v.cov["data_models"] = ["LP64 (native)", "ILP32 (gcc -m32 -ffreestanding, harness/exec32.c)"]
+    except CompileError as e:
+        v.cov["data_models"] = ["LP64 (native)"]; v.cov["ilp32_note"] = "ILP32 build not possible here: " + str(e)[-300:]
     v.cov["evaluations"] += n
     v.cov.setdefault("build_configurations", ["default -O2"] + ["%s %s" % (VARIANTS[x][0], " ".join(VARIANTS[x][1])) for x in names])
     return n
@@ -71,7 +83,7 @@ def for_each_config(v, wd, fn):
         exes = list(pool.map(lambda x: build_exec(wd, x), names))
     n = 0
     for name, exe in zip(names, exes):
-        n += fn(Executor(exe, wd), "[build %s] " % name)
+        n += fn(config_executor(name, exe, wd), "[build %s] " % name)
     v.cov["evaluations"] += n
     v.cov.setdefault("build_configurations", ["default -O2"] + ["%s %s" % (VARIANTS[x][0], " ".join(VARIANTS[x][1])) for x in names])
     return n
@@ -232,6 +244,14 @@ def c03(v, tier, seed):
     # the same transitions on exact-size heap objects under AddressSanitizer (header at offset 0 and 4 of the allocation): a guard page
     # only sees an access that crosses a page; ASan's red zone sees the first byte behind the object at any alignment, reads included
     replay_configs(v, wd, bind, exact, "C03", tier, rnd, publen=True)
+    # the header inside a larger object that the CALLER owns and the compiler sees (a local array), library linked with -flto:
+    # "nothing adjacent to it is read or written" in the build where the library is compiled in the context of its caller
+    import wholeprog
+    slack = [x for x in res.emitted if x["base"] != 0] or exact
+    inits = [x for x in slack if x["op"] == "init"]
+    rest = [x for x in slack if x["op"] != "init"]
+    subw = inits[:600] + random.Random(3).sample(rest, min(len(rest), 1200 if q else 8000))
+    v.cov["evaluations"] += wholeprog.replay(v, wd, bind, subw, "C03")
     st, sites = asan_heap_sweep(v, wd, bind, exact, "C03", tier, rnd)
     v.cov["evaluations"] += st["executed"]; v.cov["asan_heap_executions"] = st["executed"]
     v.cov["rule"] = ("facts (published length, sizeof, payload offset per view) validated by FactsTrace; every Get/Set/Init/payload transition "
@@ -272,6 +292,11 @@ def c04(v, tier, seed):
     res0, _ = gen_and_replay(v, wd, ex, bind, "C04", tier, rnd, "init", ALL_VIEWS, 4 if q else 40, False, depth=2,
                    invs=["InitCanonical"], props=["FrameOK"])
     replay_configs(v, wd, bind, res0.emitted, "C04", tier, rnd)
+    # ... and inside a caller that owns the buffer, library linked with -flto (what an initialiser leaves behind must not depend on what
+    # the compiler knows about its caller's object)
+    import wholeprog
+    iv = [x for x in res0.emitted if x["op"] == "init" and x["path"] == "current"]
+    v.cov["evaluations"] += wholeprog.replay(v, wd, bind, iv[:2500 if q else 20000], "C04")
     # prior contents one bit away from an initialised header / canonical prefix followed by junk: "already initialised" short cuts
     gen_and_replay(v, wd, ex, bind, "C04", tier, rnd, "nearinit", ALL_VIEWS, 0, False, depth=1 if q else 2,
                    invs=["InitCanonical"], props=["FrameOK"])
@@ -290,11 +315,20 @@ def c05(v, tier, seed):
     #     section is state the specification has no variable for (results could depend on calls made long ago on other buffers,
     #     beyond any history length a run can sample): validated as a fact, like C16's SharedCells = {}
     syms = writable_symbols(wd)
-    pdu.validate_facts(v, wd, [{"e": "fact", "kind": "header_len", "view": "Can", "name": "AVTP_CAN_HEADER_LEN", "value": 16}] + syms, "C05")
+    import headers as _h
+    prom = _h.function_promises(wd, _h.scan_headers())
+    pdu.validate_facts(v, wd, [{"e": "fact", "kind": "header_len", "view": "Can", "name": "AVTP_CAN_HEADER_LEN", "value": 16}] + syms + prom, "C05")
+    v.cov["declaration_promises_checked"] = len(prom)
     v.cov["writable_library_symbols"] = [x["name"] for x in syms]
     # (0') a history compressed into prior contents: the field holds a neighbour (one bit / one carry away) of the value written next
     gen_and_replay(v, wd, ex, bind, "C05", tier, rnd, "nearset", ALL_VIEWS, 0, False, props=["FrameOK", "OthersKept"], invs=["ReadBack"], readback=True)
     gen_and_replay(v, wd, ex, bind, "C05", tier, rnd, "alias", LEGACY_VIEWS, 0, False, props=["FrameOK"])
+    # (0'') the shortest history with a caller that is one compiled function: read, write, read, write, read through the by-descriptor
+    #      entry points with identical arguments (what the declarations promise the caller's compiler is part of what a call means);
+    #      every descriptor shape, the optimised default build and every other build configuration
+    g5 = shape_sweep(v, wd, ex, "C05", rnd, q, "one-function history", ops=("gsg",))
+    sub5 = random.Random(5).sample(g5, min(len(g5), 6000 if q else 40000))
+    for_each_config(v, wd, lambda ex2, tag: __import__("hostx").raw_replay(v, ex2, sub5, rnd, "one-function history " + tag, places=[("E", 0)])["executed"])
     # (a) exhaustive ordered pairs of operations: commutation, idempotence, RecordView
     run_hist(v, wd, ex, bind, "C05", rnd, "record", small if q else ALL_VIEWS, 2, 2, [1] if q else [0, 1, 5], 1,
              ["RecordView", "ReadsLastWritten"], name="GenHist/pairs")
@@ -382,6 +416,10 @@ def c17(v, tier, seed):
     gen_and_replay(v, wd, ex, bind, "C17", tier, rnd, "alias", LEGACY_VIEWS, 0, False, props=["FrameOK"])
     res0, _ = gen_and_replay(v, wd, ex, bind, "C17", tier, rnd, "nearshared", ALL_VIEWS, 0, False, props=["FrameOK"], readback=True)
     replay_configs(v, wd, bind, res0.emitted, "C17", tier, rnd, limit=20000 if q else None, readback=True)
+    # every reader of every view on the same images, in every build configuration and data model (a view's dedicated reader
+    # may be its own code: agreement of views is agreement of each with the one specification in each build)
+    resg, _ = gen_and_replay(v, wd, ex, bind, "C17", tier, rnd, "get", ALL_VIEWS, 0 if q else 2, False, name="GenPdu/get (all views, all readers)")
+    replay_configs(v, wd, bind, resg.emitted, "C17", tier, rnd, limit=20000 if q else None)
     v.cov["rule"] = ("for every group of views sharing fields: every ordered pair (A,B) of views x shared field x values x images: write through A, "
                      "read through B on the same buffer; SharedWellFormed checked as an ASSUME")
     v.cov["distinct_nontrivial"] = v.cov.get("histories_replayed", 0)
@@ -550,7 +588,8 @@ def c10(v, tier, seed):
     if not res.ok: raise Infra("GenStrArr violates its own theorem:\n" + (res.violation or "")[-1500:])
     st = vss.sa_replay(v, ex, res.emitted)
     small = [x for x in res.emitted if len(x["blob"]) < 5000]
-    for_each_config(v, wd, lambda ex2, tag: vss.sa_replay(v, ex2, small, tag=tag)["executed"])
+    # (the caller on a 64 KiB stack runs the large arrays too: a frame that grows with the array is a write outside what the caller provided)
+    for_each_config(v, wd, lambda ex2, tag: vss.sa_replay(v, ex2, res.emitted if "smallstack" in tag else small, tag=tag)["executed"])
     v.cov["evaluations"] += st["executed"]; v.cov["replayed_transitions"] = len(res.emitted)
     x = next((e for e in res.emitted if e["op"] == "unpack" and e["req"] > e["count"] > 0), res.emitted[0])
     v.sample({"tlc_transition": {k: (x[k] if len(str(x[k])) < 300 else "...") for k in x}})
@@ -639,6 +678,11 @@ def c13(v, tier, seed):
                                 tag, e["fn"], 8 * size, hexs(e["x"]), t.get("val"), t.get("img"), hexs(e["val"]), hexs(e["img"])), {"vector": e, "observed": line})
                     return len(sub_i)
                 for_each_config(v, wd, bo_in_config)
+                try:      # ... and under the ILP32 data model (long and size_t of 32 bits)
+                    v.cov["evaluations"] += bo_in_config(Executor(build_exec32(wd), wd), "[data model ILP32] ")
+                    v.cov["data_models"] = ["LP64 (native)", "ILP32 (gcc -m32 -ffreestanding, harness/exec32.c)"]
+                except CompileError as e_:
+                    v.cov["ilp32_note"] = "ILP32 build not possible here: " + str(e_)[-300:]
             outs = exs[branch].run_robust(cmds)
             for e, line in zip(res.emitted, outs):
                 t = dict(x.split("=") for x in line.split()[2:]) if line.startswith("R ok") else {}
@@ -692,10 +736,17 @@ def shape_sweep(v, wd, ex, pid, rnd, q, tag, memhost="LE", branch="LE", ops=None
     v.add_tlc("GenImpl/shapes %s/%s" % (memhost, branch), res)
     if not res.ok: raise Infra("GenericImpl violates T7:\n" + (res.violation or "")[-1200:])
     vecs = [x for x in res.emitted if ops is None or x["op"] in ops]
+    if memhost == "LE" and branch == "LE":
+        try:
+            st32 = hostx.raw_replay(v, Executor(build_exec32(wd), wd), vecs, rnd, tag + " ILP32", places=[("E", 0)])
+            v.cov["evaluations"] += st32["executed"]
+        except CompileError:
+            pass
     st = hostx.raw_replay(v, ex, vecs, rnd, tag)
     v.cov["evaluations"] += st["executed"]
     v.cov.setdefault("replayed_transitions", 0); v.cov["replayed_transitions"] += len(vecs)
     v.sample({"tlc_transition": vecs[len(vecs) // 2]})
+    return vecs
 
 
 @check("C14")
@@ -708,7 +759,11 @@ def c14(v, tier, seed):
     ex_x = Executor(build_exec(wd, "be"), wd)
     bind = Bind(ex_x.describe())
     # (1) T7 / HostIndependent on the model, and the native build follows GenericImpl(LE, LE)
-    shape_sweep(v, wd, ex_n, "C14", rnd, q, "native")
+    nat = shape_sweep(v, wd, ex_n, "C14", rnd, q, "native")
+    # ... in every build configuration of this host (which helper set a translation unit selects must not depend on what was included before it,
+    # nor on the optimisation / ABI switches): the same transitions through each of them
+    sub_n = random.Random(11).sample(nat, min(len(nat), 12000 if q else 60000))
+    for_each_config(v, wd, lambda ex2, tag: hostx.raw_replay(v, ex2, sub_n, rnd, "native " + tag, places=[("E", 0)])["executed"])
     # (2) the crossed build (big-endian helper set on little-endian memory) follows GenericImpl(LE, BE)
     shape_sweep(v, wd, ex_x, "C14", rnd, q, "crossed", "LE", "BE")
     # (2b) host independence is agreement of BOTH builds with the one specification: the native build on the array encodings
@@ -997,6 +1052,11 @@ def c16(v, tier, seed):
                             keyfn=lambda e: "concurrent " + vss.vkey(e) + " kind=trace")
         v.cov["evaluations"] += sum(len(x) for x in evs.values())
     v.sample({"thread_log_event": evs[0][5], "threads": nthr, "ops_per_thread": per})
+    # (4) "only the objects passed to them": accepted and rejected calls with the process's ambient state instrumented - the executor
+    # interposes getenv/secure_getenv/rand/random/time/isatty, poisons errno before the call and reports any use of them
+    for scn_ in ("bad", "get", "set", "init"):
+        gen_and_replay(v, wd, ex, bind, "C16", tier, rnd, scn_, ALL_VIEWS, 0, False, name="GenPdu/%s (ambient state instrumented)" % scn_)
+    v.cov["ambient_state"] = "getenv, secure_getenv, rand, random, time, isatty interposed in the executor; errno poisoned before each call and compared after it"
     v.cov["rule"] = ("model: every interleaving of quadlet-granular load/store steps of 3 threads (own buffers + one read-shared buffer), SharedCells = {} ; "
                      "binding: (a) no library object in a writable section of the compiled objects (-O0 and -O2; function-local statics included) - validated by FactsTrace, "
                      "(b) %d threads x %d calls under ThreadSanitizer, each thread's log validated by the sequential trace specifications" % (nthr, per))
@@ -1032,6 +1092,7 @@ def capacity_lens(tscf, udp, fd, target):
 def tunnel_key(ev_scn, stage):
     fs = ev_scn["frames"]
     feats = []
+    if ev_scn.get("start"): feats.append("talker-counter-preset")
     if len(fs) > 100: feats.append("long-run")
     elif len(fs) > 8: feats.append("full-size-packet")
     if any(f["rtr"] for f in fs): feats.append("rtr")
@@ -1113,13 +1174,38 @@ def c19(v, tier, seed):
                 with lock: v.violation(tunnel_key(s, "talker-run"), "talker did not produce exactly %d packet(s) (%s, %d packets) for %s" % (npk, r["status"], len(pk), json.dumps(s)[:300]), {"scenario": s})
                 continue
             ll.append("L %d %d 0 %s" % (udp, fd, " ".join(pk))); meta.append((s, pk))
+        # ... and the same runs from a talker that has been running for a while: its packet counter (UDP encapsulation sequence number,
+        # 8-bit control-header sequence number) starts at `start` instead of 0.  Numbered() says how such a talker numbers these packets,
+        # so the recorded packets are renumbered accordingly; the family of counters: wrap-arounds, sign bit, and words that look like
+        # the first quadlet of each header the receive path parses (subtype byte, a data length that matches this very datagram)
+        if not label:
+            pick = list(zip(scns, tres)); rr_ = random.Random(len(scns) * 31 + tscf * 8 + udp * 4 + fd)
+            if len(pick) > (120 if q else 1500): pick = rr_.sample(pick, 120 if q else 1500)
+            for i_, (s, r) in enumerate(pick):
+                pk = [p for seg in r["outs"] for p in seg]
+                if r["status"] != "ok" or len(pk) != len(s["frames"]) // count: continue
+                L = len(pk[0]) // 2
+                b1 = int(pk[0][10:12], 16) if udp and L >= 6 else 0
+                fam = [0xFFFFFFFF, 0xFF, 0x7FFFFFFF, 0x80000000,
+                       (0x82 << 24) | ((b1 & 0xF8) | (((L - 12) >> 8) & 7)) << 16 | ((L - 12) & 0xFF) << 8,          # an NTSCF header announcing the rest of this datagram
+                       (0x82 << 24) | ((b1 & 0xF8) | (((L - 16) >> 8) & 7)) << 16 | ((L - 16) & 0xFF) << 8 | 0xFF,   # ... the real header's own length; low byte wraps
+                       (0x05 << 24) | 0x800000 | 0xFE, (0x02 << 24) | 0x81, 0x00FFFFFF] if udp else [0xFF, 0x80, 0xFE]
+                st_ = fam[i_ % len(fam)]
+                npk_ = []
+                for j_, p_ in enumerate(pk):
+                    b = bytearray.fromhex(p_); k_ = (st_ + j_) & 0xFFFFFFFF
+                    if udp: b[0:4] = k_.to_bytes(4, "big")
+                    b[(4 if udp else 0) + (2 if tscf else 3)] = k_ & 0xFF
+                    npk_.append(b.hex())
+                s2 = dict(s, start=list(st_.to_bytes(4, "big")))
+                ll.append("L %d %d 0 %s" % (udp, fd, " ".join(npk_))); meta.append((s2, npk_))
         lres, _ = xprog.run_xh(listener, ll) if ll else ([], "")
         evs = []
         for (s, pk), r in zip(meta, lres):
             if r["status"] != "ok" or len(r["outs"]) < len(pk):
                 with lock: v.violation(tunnel_key(s, "listener-run"), "listener %s on the talker's packet(s) for %s" % (r["status"], json.dumps(s)[:300]), {"scenario": s, "packet": pk})
                 continue
-            evs.append({"e": "reset", "scn": s})
+            evs.append(dict({"e": "reset", "scn": s}, **({"start": s["start"]} if "start" in s else {})))
             for i, p_ in enumerate(pk):
                 for f in s["frames"][i * count:(i + 1) * count]: evs.append({"e": "read", "frame": f})
                 evs.append({"e": "send", "packet": unhexs(p_)})
@@ -1340,6 +1426,9 @@ def c18(v, tier, seed):
         for cse in cases:
             g = goods.get((cse["m0"], cse["m1"]))
             lines.append("L %d %d 0 %s" % (cse["m0"], cse["m1"], hexs(cse["bytes"]))); meta.append(("single", cse, g))
+            # the same datagram with the listener started from an interactive terminal (isatty() true for stdin/stdout): what surrounds
+            # the process is not part of "whatever datagram arrives"
+            lines.append("L %d %d 3 %s" % (cse["m0"], cse["m1"], hexs(cse["bytes"]))); meta.append(("single-tty", dict(cse, **{"class": cse["class"] + "@terminal"}), g))
             if g is not None and not cse["class"].startswith("good"):
                 lines.append("L %d %d 0 %s %s" % (cse["m0"], cse["m1"], hexs(cse["bytes"]), hexs(g["bytes"]))); meta.append(("then-good", cse, g))
         # soak: a long run of one well-formed datagram in one process with a 1 MiB stack (per-datagram resource growth)
@@ -1430,6 +1519,9 @@ def c20(v, tier, seed):
     # (2) the compiler: meanings alone, then every ordered tuple as C99 and C++
     alone = headers.alone_values(wd, facts)
     headers.PLAIN_FUNCS = headers.plain_functions(facts)
+    # what the declarations of a function promise the compiler (attributes accumulate over all declarations of a translation unit)
+    headers.ATTR_FACTS = {h: headers.attr_masks(wd, h, fns) for h, fns in headers.PLAIN_FUNCS.items()}
+    v.cov["function_declaration_promises_pinned"] = sum(len(x) for x in headers.ATTR_FACTS.values())
     v.cov["public_functions_that_must_stay_functions"] = sum(len(x) for x in headers.PLAIN_FUNCS.values())
     v.cov["public_constants_and_layout_facts"] = sum(len(x) for x in alone.values())
     orders = list(itertools.permutations(hdrs, 2)) + list(itertools.permutations(hdrs, 3))
